@@ -41,6 +41,7 @@ var (
 	errOverflow          = errors.New("overflow")
 	errNotEnoughData     = errors.New("not enough data")
 	errNaN               = errors.New("invalid value NaN")
+	errInvalidSampleRate = errors.New("invalid sample rate")
 )
 
 var escapedNewline = []byte("\\n")
@@ -464,6 +465,11 @@ func lexMetricAttribute(l *Lexer) stateFn {
 		v, err := strconv.ParseFloat(string(input), 64)
 		if err != nil {
 			l.err = err
+			return nil
+		}
+		// A sample rate divides counter values and timer counts: it must be a finite number > 0.
+		if math.IsNaN(v) || math.IsInf(v, 0) || v <= 0 {
+			l.err = errInvalidSampleRate
 			return nil
 		}
 		l.sampling = v
